@@ -295,6 +295,13 @@ class _ExprInliner(ast.NodeTransformer):
         return new
 
 
+def _self_chain(e):
+    """self.a or self.a.b... (attributes only)"""
+    while isinstance(e, ast.Attribute):
+        e = e.value
+    return isinstance(e, ast.Name) and e.id == 'self'
+
+
 def expand_self_aliases(node):
     """the function with every local that is bound exactly once, to a plain
     `self.<field>` expression, replaced by that expression (the binding
@@ -313,8 +320,7 @@ def expand_self_aliases(node):
                 isinstance(n.targets[0], ast.Name) and \
                 stores.get(n.targets[0].id) == 1 and \
                 isinstance(n.value, ast.Attribute) and \
-                isinstance(n.value.value, ast.Name) and \
-                n.value.value.id == 'self':
+                _self_chain(n.value):
             alias[n.targets[0].id] = n.value
 
     class Sub(ast.NodeTransformer):
